@@ -380,6 +380,12 @@ def correspond(ctx, corr, model_ok):
                                      'reconnect_case': f['reconnect_case'], 'policy': {}, 'acts': [], 'loss_kinds': []})
     corr.evaluations += 24
     corr.count('reconnect windows with a request per loop iteration', 24)
+    from harness.props import c08
+    for f in c08.reconnect_wire_oracle():
+        corr.oracle_failures.append({'what': f['what'], 'scenario': 'reconnect-producers', 'reconnect_wire_case': f['reconnect_wire_case'],
+                                     'policy': {}, 'acts': [], 'loss_kinds': []})
+    corr.evaluations += 18
+    corr.count('reconnect with local producers of the old connection still in flight', 18)
     corr.rule = ('random sequences of 2..14 actions (request-response, server response, connection loss by EOF or read error, '
                  'provoked keepalive timeout, explicit reconnect on a healthy or dead connection, keepalive period) under four handler '
                  'policies (on_close / on_keepalive_timeout call reconnect or not); 1..6 consecutive reconnects; non-trivial = at least '
@@ -405,6 +411,9 @@ def replay(obj):
     case = obj['case']
     if case.get('scenario') == 'katimeout-reconnect':
         return bool(katimeout_oracle())
+    if case.get('scenario') == 'reconnect-producers':
+        from harness.props import c08
+        return bool(c08.reconnect_wire_oracle())
     if case.get('scenario') == 'stale-partial':
         from harness.props import c01
         return bool(c01.reconnect_oracle())
